@@ -572,7 +572,7 @@ def make_patched_class():
 
 def stream_schedules(ctx, model, variant, dist, stats, samples, mism):
     rng = ctx.sub_rng("sched")
-    n_cases = 250 if ctx.quick else 12000
+    n_cases = 250 if ctx.quick else 8000
     hits = {}
     for i in range(n_cases):
         p = gen_params(rng)
